@@ -1,6 +1,7 @@
 package main
 
 import (
+	"strconv"
 	"fmt"
 	"math/rand"
 	"sort"
@@ -627,9 +628,10 @@ func init() {
 	regImpl("pg.header", func(a []string) string {
 		names, types := decParts(a[3]), decParts(a[4])
 		// the importer hands cells through ExtractFromCell(line 0) = trimmed, newlines removed
-		fields, _, err := verifhook.ParseHeader(mustStr(a[0]), c17Infos, names, types, a[2] == "1")
+		fields, cur, err := verifhook.ParseHeader(mustStr(a[0]), c17Infos, names, types, a[2] == "1")
 		if err != nil {
-			return "err"
+			// the cursor is what protogen's error reports as NameCellPos / TypeCellPos
+			return "err " + strconv.Itoa(cur)
 		}
 		var sb strings.Builder
 		sb.WriteString("ok ")
@@ -637,6 +639,59 @@ func init() {
 			sb.WriteString(renderPField(f))
 		}
 		return sb.String()
+	})
+}
+
+// genCorruptHeader: a header that is valid by construction with exactly one column spoilt (its type cell's
+// property text made unparsable, or its name cell repeating an earlier name); k is that column.
+func genCorruptHeader(r *rand.Rand) (nested bool, names, types []string, k int) {
+	g := &hgen{r: r, nested: r.Intn(4) == 0}
+	var cols []hcol
+	for {
+		cols = g.fields("", 2, 1+r.Intn(5), true)
+		names, types = nil, nil
+		for _, c := range cols {
+			names = append(names, c.name)
+			types = append(types, c.typ)
+		}
+		// "valid by construction" is settled by protogen itself: the unspoilt header is accepted
+		if _, _, err := verifhook.ParseHeader("protoconf", c17Infos, names, types, g.nested); err == nil {
+			break
+		}
+	}
+	k = r.Intn(len(cols))
+	if r.Intn(4) == 0 && k > 0 {
+		j := r.Intn(k)
+		if names[j] != "" && names[k] != "" {
+			names[k] = names[j]
+			return g.nested, names, types, k
+		}
+	}
+	bad := []string{"|{bogus:1}", "|{unique:true unique:true}", `|{sep:"," nosuch:2}`}[r.Intn(3)]
+	if i := strings.Index(types[k], "|"); i >= 0 {
+		types[k] = types[k][:i] + bad
+	} else {
+		types[k] += bad
+	}
+	return g.nested, names, types, k
+}
+
+func init() {
+	// spec.C07.headerPos: protogen names the spoilt header column (the cursor wrapDebugErr turns into
+	// NameCellPos / TypeCellPos), at any nesting depth
+	regStream("spec.C07.headerPos", func(r *rand.Rand, n int, emit func(string, ...string)) {
+		for i := 0; i < n; i++ {
+			nested, names, types, k := genCorruptHeader(r)
+			emit("pg.errpos", encStr("protoconf"), encInfos(c17Infos), encBool(nested), encParts(names), encParts(types), strconv.Itoa(k))
+		}
+	})
+	regImpl("pg.errpos", func(a []string) string {
+		names, types := decParts(a[3]), decParts(a[4])
+		_, cur, err := verifhook.ParseHeader(mustStr(a[0]), c17Infos, names, types, a[2] == "1")
+		if err != nil {
+			return "err " + strconv.Itoa(cur)
+		}
+		return "ok"
 	})
 }
 
